@@ -35,3 +35,11 @@ Definition c11_spec (text : string) (na : Z) (twopl : bool) (info : string) (m :
   | Ok M => String.eqb impl (results_frame (ri_fixed info) None (spec_stats_text M m long))
   | Crash _ => false
   end.
+
+(* M_results_run: the statistics block printed by a real run equals what the file and the printed matching line
+   imply *)
+Definition c11_block (text : string) (na : Z) (twopl : bool) (m : matching) (long : bool) (block : string) : bool :=
+  match import_model text na twopl with
+  | Ok M => String.eqb block (spec_stats_text M m long)
+  | Crash _ => false
+  end.
